@@ -20,22 +20,17 @@
 (* takes plan[k].d time units (microseconds in MC_Faults), nothing else    *)
 (* takes time; opts.limit is in the same unit.                             *)
 (***************************************************************************)
-EXTENDS MPText, MPOptions, MPIP
+EXTENDS MPText, MPOptions, MPIP, MPSolverAbs
 
+(* opts, k, status, proven, elapsed, plan are declared in MPSolverAbs *)
 VARIABLES
     fc,       \* file content record the run works on
-    opts,     \* [na, twopl, pc, stab, bf, flags, limit]  (limit 0 = no time limit)
     phase,    \* "init" | "refused" | "ready" | "solving" | "solved"
     inst,     \* instance as loaded (Denote(fc, twopl))
     crits,    \* ordered criteria
     steps,    \* elementary objectives of this run
     F,        \* matchings still admissible
-    k,        \* number of underlying solves performed in this run
     vals,     \* achieved (frozen) value of each solve
-    status,   \* status of the most recent solve ("" before any)
-    proven,   \* TRUE iff every solve so far ended with a proven optimum
-    elapsed,  \* virtual time spent in the solves of this run
-    plan,     \* outcome plan: sequence of [o |-> outcome, d |-> duration]
     result,   \* what the back end left in the variables after the run
     nruns,    \* number of completed solve() calls
     bf        \* brute-force accumulators (after BFRun)
@@ -80,8 +75,6 @@ BeginSolve ==
     /\ k' = 0 /\ vals' = <<>> /\ status' = "" /\ proven' = TRUE /\ elapsed' = 0
     /\ result' = <<>>
     /\ UNCHANGED <<fc, opts, inst, crits, plan, nruns, bf>>
-
-PlanAt(i) == IF i \in DOMAIN plan THEN plan[i] ELSE [o |-> "ok", d |-> 0]
 
 (* does the run go on to another solve? *)
 (* (with no elementary objective at all - no criterion, or generous/greedy *)
@@ -202,7 +195,6 @@ BFRun ==
 -----------------------------------------------------------------------------
 (* What the getters present (abstract content of the result text).         *)
 
-TimedOut == opts.limit > 0 /\ (status = "Not Solved" \/ elapsed > opts.limit)
 
 StatsOf(I, m) ==
     [ matching |-> m, size |-> Size(I, m),
@@ -229,7 +221,6 @@ CritsStarted ==
     ELSE IF status = "Optimal" \/ status = "" THEN Len(crits)
     ELSE IF k = 0 THEN 0 ELSE CritOfStep(inst, crits, k)
 
-PresentedT == IF TimedOut THEN "timeout" ELSE IF status # "Optimal" THEN "status" ELSE "full"
 Presented ==
     IF TimedOut THEN [t |-> "timeout", limit |-> opts.limit]
     ELSE IF status # "Optimal" THEN [t |-> "status", status |-> status]
@@ -299,6 +290,11 @@ CheckerTrue(I, m) == \A s \in S(I) : \A j \in 1 .. Len(I.prefs[s]) : ~CheckerBlo
 UpperRespecting(I) == {m \in AllM(I) : RespectsUpper(I, m)}
 CheckerEqDef == phase = "ready" /\ inst.two =>
                     \A m \in UpperRespecting(inst) : CheckerTrue(inst, m) <=> Stable(inst, m)
+
+(* refinement of the abstract presentation machine (MPSolverAbs), the     *)
+(* bridge to the unbounded TLAPS proof in spec/unbounded/FaultProofs.tla    *)
+StepRefinesAbs  == [][SolveStep => AbsStep]_svars
+BeginRefinesAbs == [][BeginSolve => AbsBegin]_svars
 
 (* C07 *)
 BFEqDef == phase = "solved" /\ opts.bf => bf.res = BFSpec(inst, opts.pc)
